@@ -103,10 +103,40 @@ def gen_case(rng):
     return {"steps": steps, "env": c.get("env") or {}}
 
 
-# known-finding signature: a reference whose target contains its own host, in a document holding >= 2 references
+# known-finding signature (= negation of the hypothesis of C08_no_branching_partial)
+def _ref_path(ref):
+    if isinstance(ref, str):
+        if ref == "":
+            return ("",)
+        if ref.startswith("["):
+            inner = ref.strip("[] ")
+            return tuple(x.strip() for x in inner.split(",")) if inner else ()
+        return tuple(ref.split("."))
+    if isinstance(ref, list) and all(isinstance(x, str) for x in ref):
+        return tuple(ref)
+    return None
+
+
+def self_containing_hosts(doc):
+    n = 0
+    for p, x in gen.paths(doc):
+        if isinstance(x, dict) and "$merge" in x and all(isinstance(k, str) for k in p):
+            t = _ref_path(x["$merge"])
+            if t is not None and (t == () or tuple(p[:len(t)]) == t):
+                n += 1
+    return n
+
+
+def count_refs(doc):
+    s = json.dumps(doc)
+    return s.count('"$merge') + s.count('"$replace')
+
+
 def sig_branching_self_reference(case):
-    s = json.dumps([st["merge"]["data"] for st in case["steps"] if "merge" in st])
-    return s.count("$merge") + s.count("$replace") >= 2
+    """>= 1 map $merge host whose target contains the host itself, and >= 2 references in the document
+    (copies of the other hosts arrive inside every expansion, so the work branches)"""
+    return any(self_containing_hosts(st["merge"]["data"]) >= 1 and count_refs(st["merge"]["data"]) >= 2
+               for st in case["steps"] if "merge" in st)
 
 
 def library_run(rep, cases, known):
